@@ -123,6 +123,10 @@ func (this *code39Reader) DecodeRow(rowNumber int, row *gozxing.BitArray, hints 
 			nextStart, end, whiteSpaceAfterEnd, lastPatternSize)
 	}
 
+	if this.usingCheckDigit && len(result) == 0 {
+		// start and stop character only
+		return nil, gozxing.NewNotFoundException("empty result")
+	}
 	if this.usingCheckDigit {
 		max := len(result) - 1
 		total := 0
